@@ -38,7 +38,7 @@ GroupFailing(ev) ==
         \cup (IF \A i \in DOMAIN Gp : ev.call[i] = ContainAll(Gp[i], pts) THEN {} ELSE {<<"contain_all">>})
         \cup (IF \A i \in DOMAIN Gp : ev.cany[i] = ContainAny(Gp[i], pts) THEN {} ELSE {<<"contain_any">>})
 
-Check(ev) == CASE ev.e = "poly" -> PolyFailing(ev)
+Check(ev) == CASE ev.e \in {"poly", "far"} -> PolyFailing(ev)
                [] ev.e = "group" -> GroupFailing(ev)
                [] OTHER -> {ev.e}
 TInit == l = 1
